@@ -462,6 +462,13 @@ def gen_gemv(rng, w, t):
     X = w.env[t]['X']
     m, n = X.size
     tc = X.typecode
+    if rng.random() < 0.2 and m >= 1 and n >= 1:
+        # symv on a square sub-block of A selected by n and offsetA (any triangle)
+        k_ = rng.randint(1, min(m, n))
+        oi, oj = rng.randint(0, m - k_), rng.randint(0, n - k_)
+        x, y = w.fresh(), w.fresh()
+        return ['seq', ['new', x, gen_dense(rng, k_, 1, tc)], ['new', y, gen_dense(rng, k_, 1, tc)],
+                ['symv', t, x, y, galpha(rng, tc), rng.choice([0.0, 1.0, 2.0]), rng.choice(['L', 'U']), k_, oj * m + oi]]
     if rng.random() < 0.3 and m == n:
         x, y = w.fresh(), w.fresh()
         return ['seq', ['new', x, gen_dense(rng, n, 1, tc)], ['new', y, gen_dense(rng, m, 1, tc)],
@@ -1004,12 +1011,25 @@ def apply(op, w, stats):
         else:
             alpha, beta = num(op[4]), num(op[5])
             uplo = op[6] if len(op) > 6 else 'L'
+            if len(op) > 8:
+                nsub, oA = op[7], op[8]
+                mA = Ad.size[0]
+                oi, oj = (oA % mA, oA // mA) if mA else (0, 0)
+                if oi + nsub > Ad.size[0] or oj + nsub > Ad.size[1]:
+                    return          # the object was resized by an earlier step of a shrunk history
 
-            def fs():
-                base.symv(a['X'], x['X'], y['X'], uplo, alpha, beta)
+                def fs():
+                    base.symv(a['X'], x['X'], y['X'], uplo, alpha, beta, n=nsub, offsetA=oA)
 
-            def fd():
-                ref_symv_lower(Ad, x['D'], y['D'], alpha, beta, uplo)
+                def fd():
+                    ref_symv_lower(matrix(Ad[oi:oi + nsub, oj:oj + nsub]), x['D'], y['D'], alpha, beta, uplo)
+                bump('probe.symv_on_sub_block')
+            else:
+                def fs():
+                    base.symv(a['X'], x['X'], y['X'], uplo, alpha, beta)
+
+                def fd():
+                    ref_symv_lower(Ad, x['D'], y['D'], alpha, beta, uplo)
         both(kind, fs, fd)
         return
     if kind == 'derive':
